@@ -140,7 +140,13 @@ namespace sim
 			return;
 		}
 
-		int num_methods = unsigned(m_out_buffer[1]);
+		int const num_methods = std::uint8_t(m_out_buffer[1]);
+		if (num_methods == 0)
+		{
+			std::printf("socks_connection::on_handshake1: no auth-methods offered\n");
+			close_connection();
+			return;
+		}
 
 		// read list of auth-methods
 		asio::async_read(m_client_connection, asio::buffer(&m_out_buffer[0],
@@ -357,7 +363,20 @@ namespace sim
 				// we already read an address of length 4, assuming it was an IPv4
 				// address. Now, with a domain name, one of those bytes was the
 				// length-prefix, but we still read 3 bytes already.
+				if (len < 3)
+				{
+					// part of what was read belongs to whatever follows the request
+					std::printf("ERROR: host names shorter than 3 bytes are not supported\n");
+					close_connection();
+					return;
+				}
 				const int additional_bytes = len - 3;
+				if (additional_bytes == 0)
+				{
+					// the whole request has been read already
+					on_request_domain_name(error_code(), 0);
+					break;
+				}
 				asio::async_read(m_client_connection, asio::buffer(&m_out_buffer[10], additional_bytes)
 					, std::bind(&socks_connection::on_request_domain_name
 						, shared_from_this(), std::placeholders::_1, std::placeholders::_2));
